@@ -249,3 +249,77 @@ def rule_raw_flags(ctx):
     ctx.instance("rawflag:positive-control")
     if len(_raw_flag_sites(pc)) != 1:
         ctx.report("rawflag:positive-control", "rules/positive/rawflag.rs", "the positive control is no longer reported", {})
+
+
+CONSUMING = {"find", "find_map", "next", "nth", "position", "take_while", "skip_while", "any", "all", "skip", "take", "last", "next_back", "by_ref"}
+
+
+SEARCHES = ("all", "any", "find", "find_map", "position", "rposition")
+
+
+def _cursor_sites(files, prefix="impl/src/"):
+    """[(kind, key, file, node, message)], number of iterator variables looked at"""
+    out = []
+    m = 0
+    for rel, f in sorted(files.items()):
+        if prefix and not rel.startswith(prefix):
+            continue
+        for fn in A.functions(f):
+            if fn.block is None:
+                continue
+            # `let mut NAME = <iterator-valued expression>` declared in the function
+            muts = {}
+            for st, _ in A.find(fn.block, "Stmt::Local"):
+                pat = st["pat"]
+                if A.kind(pat) == "Pat::Type":
+                    pat = pat["pat"]
+                if A.kind(pat) == "Pat::Ident" and pat.get("mutability") and st.get("init"):
+                    r = A.render(st["init"]["expr"])
+                    if re.search(r"\.(iter|into_iter|chars|iter_mut|fmt_args_idents|enumerate|zip|map|filter|filter_map)\(", r) and not r.startswith("iter::repeat") and "repeat(" not in r:
+                        muts[pat["ident"]["sym"]] = st
+            if not muts:
+                continue
+            for kind_, body, params, desc in loop_bodies(fn):
+                inner = _declared(body, params)
+                for mc, ps in A.find(body, "Expr::MethodCall"):
+                    nm = A.path_str(A.peel(mc["receiver"])) if A.kind(A.peel(mc["receiver"])) == "Expr::Path" else None
+                    if nm in muts and nm not in inner and mc["method"]["sym"] in CONSUMING:
+                        key = f"{rel}::{fn.qual}:{nm}.{mc['method']['sym']}"
+                        out.append(("cursor", key, f, mc["method"], f"`{fn.qual}` advances the outer iterator `{nm}` with `.{mc['method']['sym']}(..)` inside the iteration body `{desc}`: the cursor never goes back, so an element that lies before the previous hit is not found any more - the result depends on the order of the walked sequence"))
+            # a data-dependent search (`all` / `any` / `find` ..) leaves the cursor wherever the search stopped: any later
+            # use of the same iterator sees only the elements after that point
+            for nm, st in sorted(muts.items()):
+                uses = []
+                for e, ps in A.find(fn.block, "Expr::Path"):
+                    if A.path_str(e) == nm and (A.span_of(e) or [0])[0] > (A.span_of(st) or [0, 0])[1]:
+                        par = next((p for p in reversed(ps) if A.kind(p) not in ("Expr::Reference", "Expr::Paren", "Expr::Group")), None)
+                        meth = par["method"]["sym"] if par is not None and A.kind(par) == "Expr::MethodCall" and A.peel(par["receiver"]) is e else None
+                        uses.append(((A.span_of(e) or [0])[0], meth, e))
+                uses.sort(key=lambda u: u[0])
+                m += 1
+                for k, (off, meth, e) in enumerate(uses):
+                    if meth in SEARCHES and k + 1 < len(uses):
+                        nxt = uses[k + 1]
+                        key = f"{rel}::{fn.qual}:{nm}.{meth}+{nxt[1] or 'use'}"
+                        out.append(("cursor-reuse", key, f, e, f"`{fn.qual}` searches the iterator `{nm}` with `.{meth}(..)` and then uses the same, partly consumed iterator again (`{nxt[1] or 'passed on'}`): the second use only sees the elements after the point where the search stopped, so its result depends on the position of the first hit (collect the elements, or start a fresh iteration)"))
+                        break
+    return out, m
+
+
+def rule_shared_cursor(ctx):
+    """CURSOR: (a) no iteration body advances an iterator that lives *outside* it (`let mut fields = xs.iter(); ys.map(move |y| fields.find(..))`): such a cursor only moves forward, so whether an element is found depends on the order in which the other sequence is walked (`"{b:p} {a:p}"` finds `b`, then can never find `a`); (b) an iterator that was searched (`all` / `any` / `find` / `find_map` / `position`) is not used again: the search stops at a data-dependent point and the next use silently skips everything before it. A look-up per element goes over a fresh iteration (`xs.iter().find(..)`) or a collected list. The `iter::repeat(x).by_ref()` feeding a repetition and explicit `zip`s are not look-ups and are not reported. Expected count zero; positive control rules/positive/cursor.rs."""
+    import os
+
+    sites, m = _cursor_sites(ctx.files)
+    for kind_, key, f, node, msg in sites:
+        ctx.instance(key)
+        ctx.report(f"{kind_}:{key}", ctx.where(f, node), msg, {})
+    ctx.cur.instances += 1
+    ctx.note(f"{len(sites)} cursor sites; {m} iterator variables checked")
+    pos = os.path.join(os.path.dirname(os.path.dirname(os.path.dirname(os.path.dirname(os.path.abspath(__file__))))), "rules", "positive", "cursor.rs")
+    pc = A.load_files([pos])
+    got, _ = _cursor_sites(pc, prefix=None)
+    ctx.instance("cursor:positive-control")
+    kinds = sorted(k for k, *_ in got)
+    if kinds != ["cursor", "cursor-reuse"]:
+        ctx.report("cursor:positive-control", "rules/positive/cursor.rs", f"the positive control yields {kinds} instead of one site of each kind", {})
